@@ -847,3 +847,56 @@ def find_sub(t, pat):
         if r is not None:
             return r
     return None
+
+
+def _rebase(base, rest):
+    """base term followed by the projections `rest` (derefs of references cancel)"""
+    rest = tuple(rest)
+    while rest and rest[0] == "*" and base[0] == "ref":
+        base, rest = base[1], rest[1:]
+    if not rest:
+        return base
+    if base[0] == "place":
+        return ("place", base[1], tuple(base[2]) + rest)
+    return ("place", base, rest)
+
+
+def inline_closure(F, clo, args):
+    """Return term of the (single-expression) closure `clo` = ('agg','Closure',path,captures) applied to `args`, written
+    over the caller's terms: captured variables and parameters are substituted; None when the body has several
+    definitions of its result (branches) - callers then treat the call as opaque."""
+    clo = strip_refs(clo)
+    if not (clo[0] == "agg" and clo[1] == "Closure"):
+        return None
+    try:
+        c = F.closure(clo[2])
+    except KeyError:
+        return None
+    ds = c.defs().get(0, [])
+    if len(ds) != 1 or ds[0][0] not in ("assign", "call"):
+        return None
+    body = c.term_of_rvalue(ds[0][3], ds[0][1]) if ds[0][0] == "assign" else c.call_term(ds[0][2], ds[0][1])
+    caps = list(clo[3])
+
+    def sub(t):
+        if not isinstance(t, tuple) or not t:
+            return t
+        if t[0] == "arg":
+            if t[1] == 1:
+                return t
+            return args[t[1] - 2] if t[1] - 2 < len(args) else t
+        if t[0] == "place" and isinstance(t[1], tuple) and t[1] and t[1][0] == "arg":
+            proj = list(t[2])
+            if t[1][1] == 1:
+                if proj and proj[0] == "*":
+                    proj = proj[1:]
+                if proj and isinstance(proj[0], str) and proj[0].isdigit() and int(proj[0]) < len(caps):
+                    return _rebase(caps[int(proj[0])], [sub_proj(e) for e in proj[1:]])
+                return t
+            if t[1][1] - 2 < len(args):
+                return _rebase(args[t[1][1] - 2], [sub_proj(e) for e in proj])
+        return tuple(sub(x) if isinstance(x, tuple) else x for x in t)
+
+    def sub_proj(e):
+        return tuple(sub(x) if isinstance(x, tuple) else x for x in e) if isinstance(e, tuple) else e
+    return sub(body)
